@@ -1014,6 +1014,7 @@ void GridFourier::loadConstructedPoint(const double x[], const std::vector<doubl
     }else if (result == DynamicConstructorDataGlobal::AddPointResult::tensor_missing){
         dynamic_values->addTensor(wrapper.getLevels(idx).data(), [&](int l)->int{ return wrapper.getNumPoints(l); },
                                   dynamic_values->getMaxTensorWeight() + 1.0);
+        loadConstructedTensors(); // the new tensor can be complete right away, e.g., rules that add one point per level
     }
 }
 void GridFourier::loadConstructedPoint(const double x[], int numx, const double y[]){
